@@ -28,11 +28,17 @@ type c12peer struct {
 	gone  bool
 	h     *c12h
 	unsub bool
+	nsent int // requests this instance was given
+	last  *c12out // the latest of them: the only one its worker can still be working on
+	since int // quiescent points seen since it connected
 }
 
 func (p *c12peer) QueueMessageWithEncoding(msg wire.Message, _ chan<- struct{}, _ wire.MessageEncoding) {
 	id := int(msg.(*wire.MsgPing).Nonce)
-	p.h.outstanding = append(p.h.outstanding, &c12out{peer: p, req: id})
+	p.nsent++
+	o := &c12out{peer: p, req: id}
+	p.last = o
+	p.h.outstanding = append(p.h.outstanding, o)
 	p.h.sent = append(p.h.sent, fmt.Sprintf("%s<-r%d", p.name, id))
 }
 func (p *c12peer) SubscribeRecvMsg() (<-chan wire.Message, func()) {
@@ -169,6 +175,7 @@ func c12Run(c *verifeng.Chooser, depth, maxPeers int) {
 	stopped := false
 	instances := map[string]int{}
 	var pendingTasks []*verifbubble.Task
+	advances := 0
 
 	act := func(name string, f func()) bool {
 		tk := verifbubble.Go(name, func() (any, error) { f(); return nil, nil })
@@ -239,9 +246,64 @@ func c12Run(c *verifeng.Chooser, depth, maxPeers int) {
 		h.outstanding = keep
 	}
 
+	// A request that nobody holds (never sent, or its only holders have
+	// left) while a connected peer that has not been given anything yet is
+	// idle: "unanswered requests are re-issued to an available peer".
+	verdictIn := func(b *c12batch) bool { return len(b.ch) > 0 }
+	// The dispatcher knows peers by address: a second connection from an
+	// address supersedes the first one, which is then not an "available
+	// peer" any more even if it stays connected.
+	shadowed := func(p *c12peer) bool {
+		for i := len(peers) - 1; i >= 0; i-- {
+			if peers[i].addr == p.addr {
+				return peers[i] != p
+			}
+		}
+		return false
+	}
+	idlePeerUnused := func() bool {
+		if stopped {
+			return false
+		}
+		var fresh *c12peer
+		for _, p := range peers {
+			if !p.gone {
+				p.since++
+				if p.nsent == 0 && p.since >= 2 && fresh == nil && !shadowed(p) {
+					fresh = p
+				}
+			}
+		}
+		if fresh == nil {
+			return false
+		}
+		for _, b := range batches {
+			if verdictIn(b) || b.canceled {
+				continue
+			}
+			for _, r := range b.reqs {
+				if h.finished[r] || h.parked[r] != nil {
+					continue
+				}
+				held := false
+				for _, o := range h.outstanding {
+					held = held || (o.req == r && !o.peer.gone)
+				}
+				if !held {
+					return c.Fail("reissue", "unheld-request-with-idle-peer",
+						"request r%d of batch %d (%s) is held by no connected peer, and peer %s, connected and never given any request, is idle: the request is not (re-)issued to an available peer (sent so far: %v)",
+						r, b.id, b.optName, fresh.name, h.sent)
+				}
+			}
+		}
+		return false
+	}
 	for d := 0; d < depth && !c.Failed(); d++ {
 		verifbubble.Wait()
 		dedupeOut()
+		if idlePeerUnused() {
+			return
+		}
 		type ev struct {
 			name string
 			run  func() bool
@@ -261,6 +323,11 @@ func c12Run(c *verifeng.Chooser, depth, maxPeers int) {
 			// a reconnect that re-uses the address of a still connected peer
 			if instances["A"] == 1 && !peers[0].gone {
 				menu = append(menu, ev{"connect(A again, old A still connected)", func() bool { return connect("A") }})
+			}
+			// a reconnect from the address of a peer that has left (its
+			// worker may not have been cleaned up yet)
+			if instances["A"] == 1 && peers[0].gone {
+				menu = append(menu, ev{"connect(A again, old A has left)", func() bool { return connect("A") }})
 			}
 			if len(batches) < 2 {
 				if len(batches) == 0 {
@@ -293,7 +360,7 @@ func c12Run(c *verifeng.Chooser, depth, maxPeers int) {
 				}
 			}
 			if len(batches) > 0 {
-				menu = append(menu, ev{"advance 2s", func() bool { time.Sleep(2 * time.Second); return true }})
+				menu = append(menu, ev{"advance 2s", func() bool { advances++; time.Sleep(2 * time.Second); return true }})
 			}
 			for _, p := range peers {
 				p := p
@@ -350,6 +417,61 @@ func c12Run(c *verifeng.Chooser, depth, maxPeers int) {
 	}
 	dedupeOut()
 
+	if idlePeerUnused() {
+		return
+	}
+	// ---- chatty holders: every peer that holds a request keeps sending
+	// unrelated messages, one a second, for longer than the longest request
+	// timeout (32 s). Each of these requests must have been timed out at
+	// its worker by then - taken back and re-issued (a new send), or its
+	// batch ended - traffic that is no progress must not keep it alive.
+	if !stopped && len(h.outstanding) > 0 {
+		start := map[*c12out]bool{}
+		for _, o := range h.outstanding {
+			if !o.peer.gone && !shadowed(o.peer) {
+				start[o] = true
+			}
+		}
+		// a request's timeout starts at 2 s and doubles every time it
+		// expires, which takes virtual time: "advance 2s" steps
+		rounds := 2<<advances + 2
+		if rounds > 36 {
+			rounds = 36
+		}
+		for round := 0; round < rounds && len(start) > 0 && !c.Failed(); round++ {
+			for _, o := range append([]*c12out(nil), h.outstanding...) {
+				if start[o] && !o.peer.gone {
+					if !act(fmt.Sprintf("chatty(%s,r%d)", o.peer.name, o.req), func() {
+						select {
+						case o.peer.msgs <- c12msg(o.req, kindUnrelated):
+						case <-time.After(time.Millisecond):
+							// its worker is not reading (it has given the job back)
+						}
+					}) {
+						return
+					}
+				}
+			}
+			time.Sleep(time.Second)
+			verifbubble.Wait()
+			dedupeOut()
+		}
+		for _, o := range h.outstanding {
+			if !start[o] || o.peer.gone || o.peer.last != o {
+				continue
+			}
+			for _, b := range batches {
+				for _, r := range b.reqs {
+					if r == o.req && !verdictIn(b) && !h.finished[r] {
+						c.Fail("reissue", "request-kept-alive-by-unrelated-traffic",
+							"request r%d of batch %d (%s) has been with peer %s for %d s (longer than its timeout can be by now) in which the peer sent only unrelated messages (no answer, no progress); it was neither timed out and re-issued nor did its batch end (sent so far: %v)",
+							r, b.id, b.optName, o.peer.name, rounds, h.sent)
+						return
+					}
+				}
+			}
+		}
+	}
 	// ---- liveness probe: a later batch with a responsive fresh peer must
 	// complete, whatever happened to the earlier batches.
 	if !stopped {
